@@ -227,7 +227,14 @@ func dischargeAll(obls []*Obligation, timeoutS int, cross bool, workers int) {
 			rest = append(rest, o)
 		}
 	}
-	_ = rest // undecided obligations already went through every configuration (hedge.go)
+	// Undecided obligations are tried once more, two at a time, so that a verdict never
+	// hinges on the load the check itself created in the parallel phase.
+	parallel(rest, 2, func(o *Obligation) {
+		t := o.Time
+		o.Verdict, o.Model, o.Output = "", "", ""
+		dischargeHedged(o, timeoutS)
+		o.Time += t
+	})
 	if cross {
 		parallel(obls, 8, func(o *Obligation) { crossCheck(o, timeoutS) })
 	}
